@@ -251,6 +251,83 @@ def core_phase(ctx, n):
     return fs, tally
 
 
+def tast_phase(ctx, n):
+    """the tree check.rs itself builds (harness op typed_ast) through the source semantics and the model of the compiler:
+    generated programs of the whole language and the corpus (hand-written programs of the repository) on random inputs"""
+    from . import corpus, mutants
+    fs = []
+    tally = {"generated": 0, "corpus": 0, "value": 0, "panic": 0, "outside_model": 0, "not_translated": 0, "rejected": 0}
+    cases = [gen_case(ctx.rng.randrange(1 << 48), i, 4, features=None, depth=3) for i in range(n)]
+    for c in cases:
+        c["origin"] = "generated"
+    for name, src in corpus.programs():
+        cases.append({"id": len(cases), "seed": None, "src": src, "origin": "corpus", "name": name, "gen": None})
+    ta = common.run_lines_guarded(common.GVH, [{"id": c["id"], "op": "typed_ast", "src": c["src"]} for c in cases], per_case_timeout=20.0)
+    todo = []
+    for c in cases:
+        r = ta.get(c["id"]) or {}
+        if r.get("outcome") != "ok":
+            tally["rejected"] += 1
+            continue
+        if "prog" not in r:
+            tally["not_translated"] += 1
+            tally["why:" + r.get("outside", "?")[:40]] = tally.get("why:" + r.get("outside", "?")[:40], 0) + 1
+            continue
+        main = next((f for f in r["prog"]["fns"] if f["name"] == "main"), None)
+        if main is None:
+            continue
+        c["tprog"], c["uses"] = r["prog"], set(r.get("uses") or [])
+        if c["origin"] == "corpus":
+            c["params"] = main["params"]
+            try:
+                c["args"] = [[(small_value(ctx.rng, t) if i % 2 == 0 else T.rand_value(ctx.rng, t, 0.4)) for _, t in main["params"]] for i in range(6)]
+            except Exception:
+                continue
+        c["inputs"] = [[gen_prog.val_json(t, v) for (_, t), v in zip(c["params"], a)] for a in c["args"]]
+        todo.append(c)
+    impl = common.run_lines_guarded(common.GVH, [impl_case(c, "ssa", True) for c in todo], per_case_timeout=30.0)
+    src, _, _ = ctx.run_model([{"id": c["id"], "op": "src_eval", "prog": c["tprog"], "fn": "main", "inputs": c["inputs"]} for c in todo], timeout=3000)
+    bit, _, _ = ctx.run_model([{"id": c["id"], "op": "bit_eval", "prog": c["tprog"], "inputs": c["inputs"]} for c in todo], timeout=3000)
+    for c in todo:
+        r, ms, mb = impl.get(c["id"]) or {}, src.get(c["id"]) or {}, bit.get(c["id"]) or {}
+        sub = {"op": "c01", "seed": c["seed"], "gen": c.get("gen"), "src": c["src"], "config": "checker-tree", "name": c.get("name")}
+        if not r.get("ok"):
+            continue                      # compile errors / panics of accepted programs are C05's and C07's
+        tally[c["origin"]] += 1
+        in_model = not (c["uses"] & mutants.OUTSIDE_MODEL)
+        for a, inp, out, s1, b1 in zip(c["args"], c["inputs"], r["outs"], ms.get("results", []), mb.get("results", [])):
+            one = dict(sub, args=inp)
+            if out.startswith("panic@"):
+                fs.append(Failure("oracle", "c01:eval-panics", f"evaluating the compiled circuit panics: {out[:120]}", one, "output bits", out))
+                break
+            flag, reason, value = out[0], int(out[1:33], 2), out[161:]
+            # the source semantics on check.rs' tree (for-join has preconditions on its inputs: C13 compares those)
+            if "for-join" not in c["uses"]:
+                if "stuck" in s1:
+                    fs.append(Failure("oracle", "c01:checker-tree:stuck:" + s1["stuck"][:30], f"the source semantics get stuck ({s1['stuck']}) on the tree check.rs built for an accepted program", one, "a value or a panic", s1))
+                    break
+                ok = (flag == "1" and reason == PANIC_CODES[s1["panic"]]) if "panic" in s1 else (flag == "0" and value == s1["bits"])
+                if not ok:
+                    fs.append(Failure("oracle", "c01:checker-tree:circuit-differs-from-source-semantics", "the circuit and the source semantics of the tree check.rs built disagree", one, s1, out[:40] + "…" + value))
+                    break
+            if not in_model or "outside" in b1:
+                tally["outside_model"] += 1
+                if in_model:
+                    fs.append(Failure("model", "c01:checker-tree:model-does-not-cover", "Bit.bitBody does not cover the tree check.rs built for an accepted program", one, None, None))
+                    break
+                continue
+            if b1["panic"] is not None:
+                tally["panic"] += 1
+                ok = flag == "1" and reason == PANIC_CODES[b1["panic"]]
+            else:
+                tally["value"] += 1
+                ok = flag == "0" and value == b1["bits"]
+            if not ok:
+                fs.append(Failure("model", "c01:checker-tree:bit-level-model-differs", "the circuit and the bit-level model of compile.rs (Bit.bitBody on check.rs' tree) disagree", one, b1, out[:40] + "…" + value))
+                break
+    return fs, tally
+
+
 def run(ctx):
     quick = ctx.tier == "quick"
     ctx.audit(PROP_MODULES)
@@ -263,18 +340,25 @@ def run(ctx):
     failures += fs
     cfs, ctally = core_phase(ctx, 600 if quick else 12000)
     failures += cfs
+    tfs, ttally = tast_phase(ctx, 300 if quick else 6000)
+    failures += tfs
     seen, uniq = set(), []
     for f in failures:
         if f.signature not in seen:
             seen.add(f.signature); uniq.append(f)
     coverage = {
-        "evaluations": tally["value"] + tally["panic"] + ctally["value"] + ctally["panic"],
+        "evaluations": tally["value"] + tally["panic"] + ctally["value"] + ctally["panic"] + ttally["value"] + ttally["panic"],
         "distinct_nontrivial": tally["value"] + ctally["value"],
         "rule": RULE + ". Second stream: programs of the fragment theorem C01_core covers (12 feature mixes: scalars only; with assignments, "
                 "shadowing, match, helper functions; with tuples, arrays, structs, enums, indexing, loops, destructuring patterns, "
                 "assignment through accessors, == on aggregates) run through the circuit and through the model of compile.rs "
-                "(Bit.bitBody); bits, panic flag and reason must agree exactly and no program may be outside the model.",
-        "distribution": {"runs": tally, "core_fragment_runs": ctally, "generator": stats},
+                "(Bit.bitBody); bits, panic flag and reason must agree exactly and no program may be outside the model. Third stream: "
+                "the tree check.rs itself builds for a program (harness op typed_ast: operand types, cast sources and literal types as "
+                "the checker inferred them) run through Src.evalStmts and Bit.bitBody, for generated programs of the whole language "
+                "and for the corpus (the hand-written programs of the repository's tests and examples, on random inputs); programs "
+                "with for-join, join(), multiplication by a negative literal, constants that are not literals or numbers without a "
+                "type are outside the compiler model and only compared with the source semantics or counted.",
+        "distribution": {"runs": tally, "core_fragment_runs": ctally, "checker_tree_runs": ttally, "generator": stats},
         "samples": [{"src": cases[0]["src"]}, {"src": cases[1]["src"]}],
     }
     return common.finish(ctx, uniq, coverage, ["programs of nesting depth <= 3 (core: 4), arrays of at most 4 elements"], "proof", search=None)
